@@ -39,6 +39,24 @@ Definition d_oracle_d (dflt : bool) : dec oracle :=
   d_ret (Oracle (cat_in_tbl dflt ids cm) (fun_tbl fm) (fun_tbl lm)).
 Definition d_oracle : dec oracle := d_oracle_d false.
 
+(* sparse case table (legs 1608, 1609: IgnoreCase with complement-shaped ranges, where the model asks for
+   SimpleFold of every code point of [b-\x{10FFFF}]): the harness ships (rune, SimpleFold, ToLower) for EVERY code
+   point on which one of the two is not the identity; a code point missing from the table is a fixed point of
+   both, anything else is -7 as before *)
+Definition fun_tbl_id (m : PositiveMap.t Z) (r : Z) : Z :=
+  match PositiveMap.find (rkey r) m with
+  | Some v => v
+  | None => if (0 <=? r) && (r <=? max_rune) then r else -7
+  end.
+Definition d_oracle_sp (dflt : bool) : dec oracle :=
+  dlet ids <- d_zlist ;
+  dlet ct <- d_list (d_pair d_z d_z) ;
+  dlet cs <- d_list (d_pair d_z (d_pair d_z d_z)) ;
+  let cm := build_map ct in
+  let fm := build_map (map (fun t => (fst t, fst (snd t))) cs) in
+  let lm := build_map (map (fun t => (fst t, snd (snd t))) cs) in
+  d_ret (Oracle (cat_in_tbl dflt ids cm) (fun_tbl_id fm) (fun_tbl_id lm)).
+
 (* the oracle tables did not cover a question the model asked *)
 Definition oracle_incomplete : list Z := [-998].
 
@@ -105,6 +123,26 @@ Definition run_elab_d (dflt : bool) (args : list Z) : list Z :=
 Definition run_elab (args : list Z) : list Z :=
   let a := run_elab_d false args in
   if zlist_eqb a (run_elab_d true args) then a else oracle_incomplete.
+
+(* 1608: as 1602 with the sparse case table *)
+Definition run_elab_sp_d (dflt : bool) (args : list Z) : list Z :=
+  match (dlet o <- d_oracle_sp dflt ; dlet op <- d_opts ; dlet s <- d_csyn ; d_ret (o, op, s)) args with
+  | Some ((o, op, s), []) =>
+    e_res e_cls (elab (or_cat o) (or_fold o) (or_lower o) orbit_fuel s op)
+  | _ => bad_case
+  end.
+Definition run_elab_sp (args : list Z) : list Z :=
+  let a := run_elab_sp_d false args in
+  if zlist_eqb a (run_elab_sp_d true args) then a else oracle_incomplete.
+
+(* 1609: as 1603 with the sparse case table *)
+Definition run_denote_sp (args : list Z) : list Z :=
+  match (dlet o <- d_oracle_sp false ; dlet op <- d_opts ; dlet s <- d_csyn ; dlet rs <- d_zlist ; d_ret (o, op, s, rs)) args with
+  | Some ((o, op, s, rs), []) =>
+    let e := sem op s in
+    e_bits (map (denote (or_cat o) (or_fold o) orbit_fuel e) rs)
+  | _ => bad_case
+  end.
 
 (* 1603: oracle, options, bracket expression, runes -> membership according to set algebra *)
 Definition run_denote (args : list Z) : list Z :=
@@ -233,4 +271,6 @@ Definition run16 (leg : Z) (args : list Z) : list Z :=
   else if leg =? 1604 then run_ops args
   else if leg =? 1606 then run_sweep_char_in args
   else if leg =? 1607 then run_sweep_denote args
+  else if leg =? 1608 then run_elab_sp args
+  else if leg =? 1609 then run_denote_sp args
   else bad_case.
